@@ -281,3 +281,45 @@ def reshape_programs(seed, n, kinds=("abelian", "fermionic"), syms=gen.SYMS, tid
         progs.append(reshape_program(rng, tids(), syms[i % len(syms)], kinds[(i // len(syms)) % len(kinds)],
                                      rng.choice(["float64", "complex128"])))
     return progs
+
+
+def reshape_twin_programs(seed, n, kinds=("abelian", "fermionic"), tids=None):
+    """Two arrays in ONE program whose merged axes have the same charge table but are composed differently
+    (axis sizes {c0: 1, c1: 2} versus {c0: 2, c1: 1} next to an axis with equal sizes): both are reshaped to the
+    same target with two non-adjacent merge groups and back, with whatever the first trip left in any cache."""
+    tids = tids or gen.Tids()
+    progs = []
+    for i in range(n):
+        rng = gen.rng_for(seed, "reshape-twin", i)
+        sym = ["Z2", "Z2Z2", "Z4"][i % 3]
+        kind = kinds[(i // 3) % len(kinds)]
+        c0, c1 = {"Z2": ([0, 0], [1, 0]), "Z2Z2": ([0, 0], [0, 1]), "Z4": ([0, 0], [2, 0])}[sym]
+        d = rng.randint(1, 2)
+        a = rng.randint(1, 2)
+        b = a + rng.randint(1, 2)
+        duals = [rng.random() < 0.5 for _ in range(5)]
+
+        def ix(k, s0, s1):
+            return {"dual": duals[k], "cm": [{"c": list(c0), "d": s0}, {"c": list(c1), "d": s1}]}
+
+        tail = [ix(2, 1, 1), ix(3, 1, rng.randint(1, 2)), ix(4, rng.randint(1, 2), 1)]
+        xs = {}
+        for name, (s0, s1) in (("x1", (a, b)), ("x2", (b, a))):
+            ixs = [ix(0, d, d), ix(1, s0, s1)] + [dict(t, cm=[dict(e) for e in t["cm"]]) for t in tail]
+            x = gen.rand_array(rng, sym, 5, kind, ixs=ixs, charge=(0, 0), dtype="float64", sparse=0.2,
+                               phases=0.3 if kind == "fermionic" else 0.0, oddpos=3,
+                               cls="dynamic" if sym == "Z4" else "static")
+            x["fill"]["start"] = 1 if name == "x1" else 50
+            xs[name] = x
+        shape = total_shape(xs["x1"])
+        target = [shape[0] * shape[1], shape[2], shape[3] * shape[4]]
+        steps = []
+        order = ["x1", "x2"] if rng.random() < 0.5 else ["x2", "x1"]
+        for rnd in range(2):
+            for nm in order:
+                t = f"{nm}_{rnd}"
+                steps.append({"op": "reshape", "in": [nm], "out": [f"r{t}"], "args": {"newshape": target, "back": True}})
+                steps.append({"op": "reshape", "in": [f"r{t}"], "out": [f"b{t}"], "args": {"newshape": shape, "back": True}})
+                steps.append(rel("blocks" if kind == "abelian" else "same", "C07.roundtrip.twin", nm, f"b{t}"))
+        progs.append({"tid": tids(), "inputs": xs, "steps": steps})
+    return progs
